@@ -22,6 +22,7 @@ type DataModelParam struct {
 	cmdutils.ClassLabeler
 	Mod     *sysl.Module
 	App     *sysl.Application
+	Apps    []*sysl.Application // with Epname: the applications the diagram is restricted to (none given: App alone)
 	Project string
 	Title   string
 	Epname  bool // If %(epname) is specified
@@ -402,7 +403,14 @@ func getNames(t *sysl.Type) (appName string, path []string, label string, isPrim
 
 func (v *DataModelView) GenerateDataView(dataParam *DataModelParam) string {
 	var isRelation bool
-	appName := syslutil.JoinAppName(dataParam.App.Name)
+	// the applications a per-application view (Epname) is restricted to
+	viewApps := map[string]bool{}
+	for _, app := range dataParam.Apps {
+		viewApps[syslutil.JoinAppName(app.GetName())] = true
+	}
+	if len(dataParam.Apps) == 0 {
+		viewApps[syslutil.JoinAppName(dataParam.App.Name)] = true
+	}
 	relationshipMap := map[string]map[string]RelationshipParam{}
 	v.StringBuilder.WriteString("@startuml\n")
 	if dataParam.Title != "" {
@@ -435,7 +443,7 @@ func (v *DataModelView) GenerateDataView(dataParam *DataModelParam) string {
 
 	sort.Strings(entityNames)
 	for _, entityName := range entityNames {
-		if dataParam.Epname && entityApps[entityName] != appName {
+		if dataParam.Epname && !viewApps[entityApps[entityName]] {
 			continue
 		}
 		entityType := typeMap[entityName]
